@@ -333,6 +333,24 @@ static void cap_tlscerts(int v13, int n, int withexts) {
 	}
 	printf("total=%zu r=%d", total, r); if (r == 1) printf(" len=%zu", ol); xfree(out);
 }
+/* x509_crl_new_from_cert on a certificate whose CRLDistributionPoints carry no URI: the answer must be 0 with *crl = NULL and
+ * must not depend on what the stack held before the call (the uri pointer is a local of the callee).  No URI => no network. */
+static const uint8_t ppc_byte;
+#define PPC (&ppc_byte)
+static __attribute__((noinline)) void dirty_stack(void) { volatile uint8_t junk[8192]; size_t i; for (i = 0; i < sizeof junk; i++) junk[i] = 0x5a; }
+static void cap_crlfromcert(const char *dphex) {
+	static uint8_t cert[4096]; uint8_t subj[256], iss[256], exts[1024], serial[8]; size_t sl, il, el = 0, len = 0, i; uint8_t *p = cert;
+	xb dp = xhex(dphex); uint8_t *crl = (uint8_t *)PPC; size_t crl_len = 0x5a5a; int r;
+	for (i = 0; i < dp.n; i++) if (dp.p[i] == 0x86) { printf("ERR refused: URI"); xfree(dp); return; }
+	memset(serial, 0x41, sizeof serial); mk_name(subj, &sl, sizeof subj, "leaf"); mk_name(iss, &il, sizeof iss, "ROOT");
+	if (x509_exts_add_basic_constraints(exts, &el, sizeof exts, 1, 0, -1) != 1
+		|| x509_exts_add_sequence(exts, &el, sizeof exts, OID_ce_crl_distribution_points, -1, dp.p, dp.n) != 1
+		|| x509_cert_sign_to_der(X509_version_v3, serial, sizeof serial, OID_sm2sign_with_sm3, iss, il, NOW - 1000, NOW + 86400, subj, sl, &keys[1], NULL, 0, NULL, 0,
+			exts, el, &keys[0], SM2_DEFAULT_ID, SM2_DEFAULT_ID_LENGTH, &p, &len) != 1) { printf("ERR-BUILD"); xfree(dp); return; }
+	{ xb in = xalloc(len); memcpy(in.p, cert, len); dirty_stack(); r = x509_crl_new_from_cert(&crl, &crl_len, in.p, len); xfree(in); }
+	printf("r=%d crl=%s", r, crl == (uint8_t *)PPC ? "POISON" : (crl ? "SET" : "NULL")); if (r == 1 && crl && crl != (uint8_t *)PPC) free(crl);
+	xfree(dp);
+}
 static int handle_cap(size_t nw, char **w) {
 	if (strcmp(w[0], "cap") || nw < 3) return 0;
 	ent_seed(0xCA9, -1);
@@ -346,6 +364,7 @@ static int handle_cap(size_t nw, char **w) {
 	else if (!strcmp(w[1], "digalgs") && nw == 4) cap_digalgs(atoi(w[2]), strtoul(w[3], NULL, 10));
 	else if (!strcmp(w[1], "eku") && nw == 4) cap_eku(atoi(w[2]), strtoul(w[3], NULL, 10));
 	else if (!strcmp(w[1], "tlscerts") && nw == 5) cap_tlscerts(atoi(w[2]) == 13, atoi(w[3]), atoi(w[4]));
+	else if (!strcmp(w[1], "crlfromcert") && nw == 3) cap_crlfromcert(w[2]);
 	else printf("ERR bad-cap");
 	return 1;
 }
@@ -557,7 +576,9 @@ static int handle_det(size_t nw, char **w) {
 	return 1;
 }
 
+#include "harness_wave5.inc"
 static void handle(size_t nw, char **w) {
+	if (handle_wave5(nw, w)) return;
 	if (handle_det(nw, w)) return;
 	if (handle_cap(nw, w)) return;
 	if (handle_seq(nw, w)) return;
